@@ -14,6 +14,12 @@ PANIC_ALLOW = [
     {"path": "json_syntax::parse::decode_utf8", "detail": "slice API (core::slice::<impl [T]>::split_at)",
      "reason": "`content.split_at(e.valid_up_to())` with `e` the error of `from_utf8(content)` of the same slice: valid_up_to() <= content.len() by the contract of "
                "Utf8Error (rule C01.entry/source checks exactly this data flow: prefix(content, valid_up_to(utf8error-of(content))))"},
+    {"path": "json_syntax::object::index_map::make_hasher::{closure#0}", "detail": "BoundsCheck",
+     "reason": "`entries[indexes.rep]` in the re-hash callback (reached through hashbrown's `&dyn Fn`): every representative stored in the table is a position "
+               "of the entries slice passed to the IndexMap operation — the precondition that rule C06.model checks at every IndexMap::get / insert / remove "
+               "call while interpreting every Object operation on all small objects (objmodel.World.precond)"},
+    {"path": "json_syntax::object::index_map::equivalent_key::{closure#0}", "detail": "BoundsCheck",
+     "reason": "`entries[indexes.rep]` in the probe's equality callback: same precondition as the re-hash callback (rule C06.model, objmodel.World.precond)"},
 ]
 
 
